@@ -219,6 +219,9 @@ var specs = map[string]*propSpec{
 			// flight while another connection holds the database's write lock (no Go-level race involved)
 			{engine: "range", parallel: 4, qBatches: 2, qCases: 16, tBatches: 8, tCases: 16},
 			wireRun(0, 8),
+			// the environment variants of the real binary: among them a backlog of requests from two links
+			// queued while the process is stopped (what the read loop does with several datagrams at once)
+			wireVarRun(),
 		},
 		raceDecides: true,
 		guards: []guard{{"race.overlapping_pairs", 5000, "overlapping datagram pairs"}, {"race.buffer_reuse_in_flight", 50, "pool buffers reused while a handler of an earlier datagram was in flight"},
